@@ -43,6 +43,7 @@ var crashCases = []struct {
 	{name: "wire map with an array as key", raw: "%1\r\n*0\r\n+x\r\n"},
 	{name: "wire attribute map with an array as key", raw: "|1\r\n*0\r\n+x\r\n"},
 	{name: "BITCOUNT of an empty string", setup: [][]string{{"SET", "e", ""}}, cmd: []string{"BITCOUNT", "e"}},
+	{name: "SORT of a set", setup: [][]string{{"SADD", "s", "b", "a"}}, cmd: []string{"SORT", "s", "ALPHA"}},
 	{name: "BITCOUNT of an empty string with a range", setup: [][]string{{"SET", "e", ""}}, cmd: []string{"BITCOUNT", "e", "0", "-1"}},
 }
 
